@@ -30,11 +30,17 @@ for sid in sorted(os.listdir(os.path.join(HERE, "seeded"))):
                             "--budget", budget], env=env, cwd=HERE, capture_output=True, text=True)
         classes = sorted({ln.split("class=")[-1].split()[0] for ln in c.stdout.splitlines()
                           if ln.startswith("VIOLATION") and "class=" in ln})
-        rows.append((sid, prop, ("caught: " + ", ".join(classes)[:120]) if c.returncode == 1
-                     else f"MISSED (exit {c.returncode})"))
+        if meta.get("expected") == "not-caught" and c.returncode == 0:
+            # a change kept on record whose trigger lies outside what the check generates
+            rows.append((sid, prop, "not caught, as recorded: " + meta.get("why_not", "")[:100]))
+        else:
+            rows.append((sid, prop, ("caught: " + ", ".join(classes)[:120]) if c.returncode == 1
+                         else f"MISSED (exit {c.returncode})"))
     finally:
         shutil.rmtree(tmp, ignore_errors=True)
     print(*rows[-1], flush=True)
-bad = [r for r in rows if not r[2].startswith("caught")]
-print(f"{len(rows) - len(bad)}/{len(rows)} caught")
+bad = [r for r in rows if not r[2].startswith(("caught", "not caught, as recorded"))]
+rec = [r for r in rows if r[2].startswith("not caught, as recorded")]
+print(f"{len(rows) - len(bad) - len(rec)}/{len(rows)} caught"
+      + (f", {len(rec)} on record as out of reach" if rec else ""))
 sys.exit(1 if bad else 0)
